@@ -336,7 +336,15 @@ def run_threaded(res: Result, seed: int) -> None:
                 inflight[0] += 1
             try:
                 if slow and lrng.random() < 0.45:
-                    time.sleep(lrng.choice([0.03, 0.06, 0.1]))
+                    if kind == "A" and lrng.random() < 0.5:
+                        # what listeners do: a blocking lookup from the browser thread (nobody answers: it runs to its timeout)
+                        try:
+                            zc.get_service_info(T, name, lrng.choice([30, 60, 100]))
+                        except Exception as e:  # noqa
+                            with lock:
+                                problems.append("get_service_info from add_service raised %r" % (e,))
+                    else:
+                        time.sleep(lrng.choice([0.03, 0.06, 0.1]))
                 self._record(kind, zc, name)
             finally:
                 with lock:
